@@ -31,6 +31,11 @@ GETTERS = [["get_spoken_text"], ["get_braille", ""], ["get_overview_text"]]
 NAV = ["ZoomIn", "MoveNext", "MovePrevious", "ZoomOut", "ReadNext", "DescribeCurrent", "ToggleZoomLockUp", "MoveStart", "ZoomInAll", "WhereAmI"]
 
 
+# an expression that ClearSpeak and SimpleSpeak (and Terse / Verbose) speak differently: fractions, powers, roots, functions
+STYLE_SENSITIVE = ("<mrow><mfrac><mrow><mi>x</mi><mo>+</mo><mn>1</mn></mrow><mrow><mi>y</mi><mo>-</mo><mn>2</mn></mrow></mfrac><mo>+</mo><msup><mi>x</mi><mrow><mi>n</mi><mo>+</mo><mn>1</mn></mrow></msup>"
+                   "<mo>+</mo><mroot><mi>z</mi><mn>5</mn></mroot><mo>+</mo><mi>f</mi><mo>&#x2061;</mo><mrow><mo>(</mo><mi>x</mi><mo>)</mo></mrow></mrow>")
+
+
 def history(rng, bodies, n):
     ops = []
     for _ in range(n):
@@ -72,6 +77,15 @@ def sessions_for(res):
         for v in vs:
             body = rng.choice(RARE)
             out.append(([["set_mathml", X.math(rng.choice(RARE))], ["get_spoken_text"], ["get_braille", ""], ["get_overview_text"], ["set_preference", k, v]], body))
+    # number-valued preferences set after the first outputs, with an engine selected (their effect is markup / pauses): the
+    # outputs that follow are those of a fresh session with the same values
+    cap = "<mrow><mi>A</mi><mo>+</mo><mfrac><mi>B</mi><mn>2</mn></mfrac><mo>=</mo><mi>C</mi></mrow>"
+    for k, vs in (("MathRate", ["80", "150"]), ("Pitch", ["10", "-5"]), ("Rate", ["250"]), ("Volume", ["80"]), ("CapitalLetters_Pitch", ["30", "0"]), ("PauseFactor", ["300", "0"])):
+        for v in vs:
+            for tts in ("SSML", "SAPI5"):
+                out.append(([["set_preference", "TTS", tts], ["set_mathml", X.math(cap)], ["get_spoken_text"], ["get_braille", ""], ["set_preference", k, v]], cap))
+                out.append(([["set_preference", "TTS", tts], ["set_preference", k, vs[0]], ["set_mathml", X.math(cap)], ["get_spoken_text"], ["do_navigate_command", "ZoomIn"],
+                             ["set_preference", k, v], ["set_preference", k, "100" if k in ("MathRate", "PauseFactor") else "0"]], cap))
     # every ordered pair of languages (regional variants share rule files with their language and differ in the Unicode
     # table only): warm up in the first, switch, speak in the second
     paren = "<mrow><mo>(</mo><mi>x</mi><mo>+</mo><mn>1</mn><mo>)</mo><mo>[</mo><mi>y</mi><mo>]</mo><mo>&#x22C8;</mo><mn>3</mn><mtext>tim</mtext></mrow>"
@@ -80,6 +94,15 @@ def sessions_for(res):
             if l1 != l2:
                 out.append(([["set_preference", "Language", l1], ["set_mathml", X.math(paren)], ["get_spoken_text"], ["do_navigate_command", "ZoomIn"],
                              ["set_preference", "Language", l2]], paren))
+    # away and back: the language (and with it the style file that was found, the separators, the tables) is switched to
+    # another one and back again; also with a style the other language does not have
+    for l1 in LANGS:
+        for l2 in LANGS:
+            if l1 != l2:
+                pre = [["set_preference", "SpeechStyle", rng.choice(["ClearSpeak", "SimpleSpeak"])]] if rng.random() < 0.5 else []
+                out.append((pre + [["set_preference", "Language", l1], ["set_mathml", X.math(paren)], ["get_spoken_text"], ["set_preference", "Language", l2],
+                                   ["set_mathml", X.math(rng.choice(RARE))], ["get_spoken_text"], ["get_braille", ""], ["set_preference", "Language", l1]],
+                            rng.choice([STYLE_SENSITIVE, STYLE_SENSITIVE, paren] + RARE)))
     out += definition_probes(rng, tier)
     for body in RARE[3:6]:
         for k, vs in PREFS[4:6] + PREFS[:1]:
@@ -171,10 +194,21 @@ def norm(o):
     return o
 
 
+def final_prefs(h):
+    """the preferences in force at the end of a history: each name once, with the value set last, in the order of these
+    last calls (a fresh session that replayed every call would go through the same intermediate states and hide what they
+    leave behind)"""
+    calls = [op for op in h if op[0] == "set_preference"]
+    last = {}
+    for i, op in enumerate(calls):
+        last[op[1]] = i
+    return [op for i, op in enumerate(calls) if last[op[1]] == i]
+
+
 def oracle(res, hs, out):
     found = 0
     # fresh sessions: the same preference calls, then the final expression and queries
-    fresh = [{"id": i, "ops": [["set_rules_dir", C.RULES]] + [op for op in h if op[0] == "set_preference"] + final_queries(b)} for i, (h, b) in enumerate(hs)]
+    fresh = [{"id": i, "ops": [["set_rules_dir", C.RULES]] + final_prefs(h) + final_queries(b)} for i, (h, b) in enumerate(hs)]
     fout = C.run_harness(fresh)
     names = ["set_mathml", "speech", "braille", "overview", "speech again", "braille again"]
     for (h, b), r, f in zip(hs, out, fout):
